@@ -17,7 +17,7 @@ InvChain == RecLenChainCoversBlock(d, G, inl)
 InvLive == LiveSlots(d) = {<<n, 100 + n, 1>> : n \in present} /\ LiveCount(d) = Cardinality(present)
 \* after the retry an insertion always succeeds (checked as: Ins(n) is enabled for every absent name while blocks remain)
 InvInsertable == \A n \in (1..N) \ present : LinkExpand(d, inl, Slot(100 + n, NLen[n], 0, 1, n), G, 50, 2, 2).done
-cNLen == <<255, 255, 255, 120, 8, 1, 255>>
+cNLen == <<255, 255, 120, 8, 255, 1, 255>>
 cNLenInl == <<1, 8, 1, 20, 8, 1, 36>>
 G1kCsum == [bs |-> 1024, tail |-> 12, cs |-> 12]
 G1k == [bs |-> 1024, tail |-> 0, cs |-> 0]
